@@ -82,4 +82,64 @@ theorem passthrough (S : Sem D σ) (t : Bool) (s0 : σ) (lines : List Str)
   rw [machine_def, feedAll_passthrough S s0 lines h1 h2]
   simp [finish, body_false]
 
+/-- if no detected directive is rejected and no directive fails, the machine never fails -/
+theorem feedAll_total (S : Sem D σ) (hbad : ∀ l d, S.detect l = some d → S.badStart d = false)
+    (hexec : ∀ s d, (S.exec s d).isSome) (lines : List Str) (m : MSt D σ) : (feedAll S m lines).isSome := by
+  have execD_some : ∀ (m : MSt D σ) d b, (execD S m d b).isSome := by
+    intro m d b
+    unfold execD
+    have := hexec m.st d
+    cases hx : S.exec m.st d with
+    | none => simp [hx] at this
+    | some r => obtain ⟨s', o⟩ := r; cases o <;> simp
+  have fresh_some : ∀ (m : MSt D σ) l, (feedFresh S m l).isSome := by
+    intro m l
+    unfold feedFresh
+    cases hd : S.detect l with
+    | some d => simp [hbad l d hd]
+    | none =>
+      simp only
+      rcases hx : S.text m.st l with ⟨st', o⟩
+      cases o <;> simp
+  induction lines generalizing m with
+  | nil => simp [feedAll]
+  | cons l ls ih =>
+    simp only [feedAll]
+    have hf : (feed S m l).isSome := by
+      unfold feed
+      cases hc : m.cur with
+      | none => exact fresh_some m l
+      | some d =>
+        simp only
+        cases ha : S.addLine d l with
+        | some d' => simp
+        | none =>
+          simp only
+          have := execD_some m d true
+          cases hx : execD S m d true with
+          | none => simp [hx] at this
+          | some m' => exact fresh_some m' l
+    cases hx : feed S m l with
+    | none => simp [hx] at hf
+    | some m' => exact ih m'
+
+theorem machine_total (S : Sem D σ) (hbad : ∀ l d, S.detect l = some d → S.badStart d = false)
+    (hexec : ∀ s d, (S.exec s d).isSome) (t : Bool) (s0 : σ) (lines : List Str) : (machine S t s0 lines).isSome := by
+  rw [machine_def]
+  have h1 := feedAll_total S hbad hexec lines ⟨none, s0, false, []⟩
+  cases hf : feedAll S ⟨none, s0, false, []⟩ lines with
+  | none => simp [hf] at h1
+  | some m =>
+    simp only [Option.bind_some, finish_eq]
+    unfold finishCore
+    cases hc : m.cur with
+    | none => simp
+    | some d =>
+      simp only
+      have := hexec m.st d
+      unfold execD
+      cases hx : S.exec m.st d with
+      | none => simp [hx] at this
+      | some r => obtain ⟨s', o⟩ := r; cases o <;> simp
+
 end Refine
